@@ -208,6 +208,8 @@ class C04(Prop):
             rng.choice([3, 5, 8, 12, 16])
         ops = gen.gen_history(rng, cfg, n, self.REQS, self.WEIGHTS,
                               quiet_p=0.6)
+        if rng.random() < 0.15:
+            gen.add_on_demand(rng, cfg, ops)
         return {'cfg': cfg, 'ops': ops}
 
     def enum_cases(self, tier, master):
